@@ -193,16 +193,17 @@ std::vector<Exp> expected_events(const Program& p) {
     return ev;
 }
 
+std::string show(const std::string& raw);
 std::string render(const Program& p) {
     std::string o;
     for (auto& t : p.tests) {
-        o += "{group=\"" + vf::esc(t.group) + "\" test=\"" + vf::esc(t.name) + "\" at \"" + vf::esc(t.file) + "\":" + std::to_string(t.line) + " " + t.label;
+        o += "{group=\"" + show(t.group) + "\" test=\"" + show(t.name) + "\" at \"" + show(t.file) + "\":" + std::to_string(t.line) + " " + t.label;
         const Act* acts[2] = {&t.body, &t.teardown};
         for (int k = 0; k < 2; k++) if (acts[k]->type != A_NONE) {
             const Act& a = *acts[k];
             o += k ? " teardown:" : " body:";
-            if (a.type == A_THROW) o += "throw(\"" + vf::esc(a.a) + "\")";
-            else o += std::string(a.type == A_FAIL ? "FAIL" : a.type == A_STRCMP ? "STRCMP_EQUAL" : "CHECK_TEXT") + "(\"" + vf::esc(a.a) + "\"" + (a.type == A_STRCMP ? ",\"" + vf::esc(a.b) + "\"" : "") + ") at \"" + vf::esc(a.file) + "\":" + std::to_string(a.line);
+            if (a.type == A_THROW) o += "throw(\"" + show(a.a) + "\")";
+            else o += std::string(a.type == A_FAIL ? "FAIL" : a.type == A_STRCMP ? "STRCMP_EQUAL" : "CHECK_TEXT") + "(\"" + show(a.a) + "\"" + (a.type == A_STRCMP ? ",\"" + show(a.b) + "\"" : "") + ") at \"" + show(a.file) + "\":" + std::to_string(a.line);
         }
         o += "} ";
     }
@@ -212,6 +213,17 @@ std::string render(const Program& p) {
     o += p.via_runner ? "via runner" : "via registry";
     return o;
 }
+// printable rendering with long runs of one character folded: aaaaaaaaaaaa -> a{12}
+std::string show(const std::string& raw) {
+    std::string e = vf::esc(raw), o;
+    for (size_t i = 0; i < e.size();) {
+        size_t j = i; while (j < e.size() && e[j] == e[i]) j++;
+        if (j - i >= 8 && e[i] != '\\') { o += e[i]; o += "{" + std::to_string(j - i) + "}"; }
+        else o.append(e, i, j - i);
+        i = j;
+    }
+    return o;
+}
 std::string clip(const std::string& s, size_t n = 420) { return s.size() <= n ? s : s.substr(0, n) + "..."; }
 
 // one failure per signature and case
@@ -219,7 +231,7 @@ struct Reporter {
     std::set<std::string> seen; const std::string& desc; const std::string& stream;
     void fail(const std::string& sig, const std::string& what) {
         if (!seen.insert(sig).second) return;
-        vf::fail(sig, what + " | program: " + clip(desc, 600) + " | stream: " + clip(vf::esc(stream), 700));
+        vf::fail(sig, what + " | program: " + clip(desc, 600) + " | stream: " + clip(show(stream), 700));
     }
 };
 
@@ -314,7 +326,7 @@ size_t judge(const Program& p, const std::string& stream, const std::vector<RecF
             return msgs.size();
         }
         for (size_t i = 0; i < w.size(); i++) if (w[i].second != g[i].second) {
-            R.fail(std::string(TYPE_NAME[w[i].first]) + ".name/decodes-to-other-text", vf::fmt("message %zu: name decodes to '", i) + vf::esc(g[i].second) + "', original '" + vf::esc(w[i].second) + "'");
+            R.fail(std::string(TYPE_NAME[w[i].first]) + ".name/decodes-to-other-text", vf::fmt("message %zu: name decodes to '", i) + show(g[i].second) + "', original '" + show(w[i].second) + "'" + vf::fmt(" (%zu bytes decoded, %zu original)", g[i].second.size(), w[i].second.size()));
         }
     }
     // failure attributes (k-th testFailed of the stream against the k-th failure of the run)
@@ -328,10 +340,10 @@ size_t judge(const Program& p, const std::string& stream, const std::vector<RecF
             std::string with_test = "TEST failed (" + e.tfile + ":" + std::to_string(e.tline) + "): " + loc;
             const std::string& msg = *m.get("message");
             if (msg != loc && msg != with_test)
-                R.fail("testFailed.message/decodes-to-other-text", "message decodes to '" + vf::esc(msg) + "', original '" + vf::esc(loc) + "' or '" + vf::esc(with_test) + "'");
+                R.fail("testFailed.message/decodes-to-other-text", "message decodes to '" + show(msg) + "', original '" + show(loc) + "' or '" + show(with_test) + "'");
             const std::string& det = *m.get("details");
             if (det != e.details)
-                R.fail("testFailed.details/decodes-to-other-text", "details decode to '" + vf::esc(det) + "', original '" + vf::esc(e.details) + "'");
+                R.fail("testFailed.details/decodes-to-other-text", "details decode to '" + show(det) + "', original '" + show(e.details) + "'" + vf::fmt(" (%zu bytes decoded, %zu original)", det.size(), e.details.size()));
         }
     }
     return msgs.size();
@@ -547,6 +559,32 @@ int main(int argc, char** argv) {
             run_program(p); text_outcome(sp);
         });
         vf::require_outcomes("all5", 8);
+    }
+    {
+        // long values: a writer that buffers or chunks its output has positions where an escape pair does not fit
+        const int LEN = 270, OFFS = 261;
+        static const char SPECIAL[6] = {'\'', '|', '[', ']', '\n', '\r'};
+        // (field, failure location) combinations in which the field is written through the escaping path
+        static const int COMBO[7][2] = {{F_GROUP, 0}, {F_NAME, 0}, {F_MSG, 0}, {F_TFILE, 0}, {F_TFILE, 1}, {F_TFILE, 2}, {F_FFILE, 2}};
+        const long NA = 7L * 6 * OFFS, NB = 7L * 36 * (OFFS - 1), NCC = 7L * 36 * (OFFS - 1);
+        vf::info("long.bound", vf::fmt("values of %d bytes ('a' filler) in each of the five fields (test file with all 3 failure locations, failure file in another file): family A = one special of {' | [ ] LF CR} at EVERY offset 0..%d; family B = one special (all 6) at offset 0 plus one special (all 6) at every offset 1..%d; family C = two adjacent specials (all 36 ordered pairs) at every offset pair (i,i+1), i = 0..%d; %ld programs, complete", LEN, OFFS - 1, OFFS - 1, OFFS - 2, NA + NB + NCC));
+        vf::section_index("long", NA + NB + NCC, [&](long idx) {
+            int fam; if (idx < NA) fam = 0; else if (idx < NA + NB) { fam = 1; idx -= NA; } else { fam = 2; idx -= NA + NB; }
+            vf::Radix r(idx);
+            int combo = (int)r.take(7); int s1 = (int)r.take(6); int s2 = fam == 0 ? 0 : (int)r.take(6);
+            int off = (int)r.take(fam == 0 ? OFFS : OFFS - 1);
+            std::string v((size_t)LEN, 'a');
+            if (fam == 0) v[(size_t)off] = SPECIAL[s1];
+            else if (fam == 1) { v[0] = SPECIAL[s2]; v[(size_t)off + 1] = SPECIAL[s1]; }
+            else { v[(size_t)off] = SPECIAL[s1]; v[(size_t)off + 1] = SPECIAL[s2]; }
+            std::string f[NFIELDS]; for (int i = 0; i < NFIELDS; i++) f[i] = FIELD_DEFAULT[i];
+            f[COMBO[combo][0]] = v;
+            Program p = text_program(f, COMBO[combo][1]);
+            run_program(p);
+            vf::outcome(vf::fmt("family %c field %s", 'A' + fam, FIELD_NAME[COMBO[combo][0]]));
+            text_outcome(true);
+        });
+        vf::require_outcomes("long", 15);
     }
     {
         const int NC = CPPUTEST_HAVE_EXCEPTIONS ? 3 : 2;
